@@ -1258,7 +1258,8 @@ def cumulative_trapezoid(ex, y, x=None, dx=None, initial=None):
     name = f"ctz{len(reg)}"
     c = lambda j: tm.app(name, (j,), tm.R)
     inc = lambda k: tm.mul(step(k), tm.div(tm.add(fy((k,)), fy((tm.sub(k, tm.const(1)),))), tm.const(2)))
-    reg[name] = {"n": y.shape[0], "inc": inc, "y": fy, "x": (fx if x is not None else None), "step": step}
+    inc_with = lambda k, yf: tm.mul(step(k), tm.div(tm.add(yf(k), yf(tm.sub(k, tm.const(1)))), tm.const(2)))
+    reg[name] = {"n": y.shape[0], "inc": inc, "inc_with": inc_with, "y": fy, "x": (fx if x is not None else None), "step": step}
     ex.facts.append(tm.eq(c(tm.const(0)), tm.rconst(0)))
     ex.qfacts.append(lambda j: tm.implies(tm.land(tm.le(tm.const(1), j), tm.lt(j, y.shape[0])), tm.eq(c(j), tm.add(c(tm.sub(j, tm.const(1))), inc(j)))))
     out = ArrV(y.shape, lambda idx: c(idx[0]), "f8")
@@ -1277,10 +1278,11 @@ class Interp1dV:
     def __init__(self, ex, x, y, kind="linear", bounds_error=None, fill_value=None, **kw):
         if kw:
             raise OutOfSubset(f"interp1d options {sorted(kw)}")
-        if not (isinstance(kind, str) and kind == "linear"):
-            raise OutOfSubset(f"interp1d kind={kind!r}")
-        self.x = arr_copy(ex, as_array(ex, x))
-        self.y = arr_copy(ex, as_array(ex, y))
+        self.kind = kind if isinstance(kind, str) else "other"
+        xa, ya = as_array(ex, x), as_array(ex, y)
+        self.x = arr_copy(ex, xa)
+        self.y = arr_copy(ex, ya)
+        self.x.srcname, self.y.srcname = getattr(xa, "name", None), getattr(ya, "name", None)
         if self.x.shape[0] is not self.y.shape[0]:
             Arith(ex).need(tm.eq(self.x.shape[0], self.y.shape[0]), "interp1d: x and y of equal length")
         Arith(ex).need(tm.ge(self.x.shape[0], tm.const(2)), "interp1d: at least two nodes")
@@ -1328,8 +1330,6 @@ class Interp1dV:
             else:
                 if ex.decide(tm.lor(tm.lt(q, x0), tm.gt(q, xl))):
                     raise Raised("ValueError", "interp1d: value outside the interpolation range")
-        if self.mode == "nan":
-            raise OutOfSubset("interp1d returning nan outside")
         name = self.name
 
         def app1(ar, v):
@@ -1341,6 +1341,37 @@ class Interp1dV:
 
     def getattr_model(self, ex, name):
         raise OutOfSubset("interp1d attribute " + name)
+
+    # ---- instances of the assumed contract (used by contracts; each returns a list of formulas)
+    def app(self, q):
+        return tm.app(self.name, [q], tm.R)
+
+    def node_fact(self, J):
+        """the value at a node is the node value (any kind)"""
+        return tm.implies(tm.land(tm.le(tm.const(0), J), tm.lt(J, self.n)), tm.eq(self.app(self.xf(J)), self.yf(J)))
+
+    def seg_facts(self, q, s):
+        """linear kind, x strictly increasing, x[0] <= q <= x[n-1]: q lies in segment s and the value is the chord"""
+        if self.kind != "linear":
+            return []
+        one = tm.const(1)
+        xs, xs1, ys, ys1 = self.xf(s), self.xf(tm.add(s, one)), self.yf(s), self.yf(tm.add(s, one))
+        inside = tm.land(tm.le(self.xf(tm.const(0)), q), tm.le(q, self.xf(tm.sub(self.n, one))))
+        return [tm.implies(inside, tm.land(tm.le(tm.const(0), s), tm.le(s, tm.sub(self.n, tm.const(2))), tm.le(xs, q), tm.le(q, xs1),
+                                            tm.eq(self.app(q), tm.add(ys, tm.div(tm.mul(tm.sub(q, xs), tm.sub(ys1, ys)), tm.sub(xs1, xs))))))]
+
+    def outside_facts(self, q):
+        one = tm.const(1)
+        x0, xl = self.xf(tm.const(0)), self.xf(tm.sub(self.n, one))
+        if self.mode == "fill":
+            return [tm.implies(tm.lt(q, x0), tm.eq(self.app(q), self.fill_lo)), tm.implies(tm.gt(q, xl), tm.eq(self.app(q), self.fill_hi))]
+        if self.mode == "extrapolate" and self.kind == "linear":
+            y0, y1 = self.yf(tm.const(0)), self.yf(one)
+            x1 = self.xf(one)
+            n1, n2 = tm.sub(self.n, one), tm.sub(self.n, tm.const(2))
+            return [tm.implies(tm.lt(q, x0), tm.eq(self.app(q), tm.add(y0, tm.div(tm.mul(tm.sub(q, x0), tm.sub(y1, y0)), tm.sub(x1, x0))))),
+                    tm.implies(tm.gt(q, xl), tm.eq(self.app(q), tm.add(self.yf(n2), tm.div(tm.mul(tm.sub(q, self.xf(n2)), tm.sub(self.yf(n1), self.yf(n2))), tm.sub(xl, self.xf(n2))))))]
+        return []
 
 
 def copy_copy(ex, v):
